@@ -165,16 +165,12 @@ theorem prec_triples_exact :
     ((triplesATrees ++ triplesBTrees ++ triplesCTrees).all fun s => devsExact s.eqn) = true := by
   rw [List.all_append, List.all_append, triplesA_exact, triplesB_exact, triplesC_exact]; rfl
 
-/-- integer leaves carry no deviation -/
-theorem small_no_devs (s : Shape) : devsEqn s.eqn = [] ∧ devsScript s.eqn = [] ∧ devsFilter s.eqn = [] →
-    devsExact s.eqn = true → allThree s.eqn = true :=
-  fun h hx => devsExact_allThree s.eqn hx h.1 h.2.1 h.2.2
-
 /-- **all three text forms of every small tree round-trip** (unconditionally: the trees' deviation lists are
 empty, checked with them) -/
 theorem prec_small_all :
     ((pairsATrees ++ pairsBTrees ++ (triplesATrees ++ triplesBTrees ++ triplesCTrees)).all fun s =>
       allThree s.eqn) = true := by
+  simp only [allThree]
   rw [List.all_append, List.all_append, List.all_append, List.all_append, pairsA_all, pairsB_all, triplesA_all,
     triplesB_all, triplesC_all]; rfl
 
